@@ -20,7 +20,7 @@ def run(ctx):
     ctx.floor('C06.variants_compared', 500)
     ctx.floor('auto.discovery_changed_signature', 200)
     w_auto.run_targeted_taints(ctx, ('C06',))
-    w_auto.run(ctx, ('C06',), {'quick': 2500, 'thorough': 150000}[ctx.tier], variants=2)
+    w_auto.run(ctx, ('C06',), {'quick': 5000, 'thorough': 1000000}[ctx.tier], variants=2)
 
 
 def replay(ctx, rec):
